@@ -15,6 +15,8 @@
       `exp(i(φ+π/2)) = −sin φ + i cos φ`)
     * `omega_slot`, `delta_slot`, `interaction_slot`   bookkeeping of `backward`: `ε · grad_p[i]`-trace equals the trace against
       the finite difference of `H` in *that* parameter (slot `i` ↔ parameter `i`)
+    * `real_path_ignores_phase`, `zero_phase_energy_counterexample`   finding F-treevec-2: quantities differentiated through
+      `RydbergHamiltonian.__mul__` on the all-phases-zero path (the energy observables) have no `φ`-gradient
   Assumed, not proved (PARTIAL): the Fréchet-derivative identity behind `backward`
   (`⟨g| d exp(−i dt H)[E] |ψ⟩ = tr(−i dt E · Vsᵀ dS Vg*)` with `dS` from the block-triangular `matrix_exp`) and the accuracy
   of the double Lanczos decomposition (`emu_base/math/double_krylov.py`) — `FrechetDoubleKrylovContract`; finiteness and
@@ -94,6 +96,14 @@ theorem interaction_slot (cplx : Bool) (Ω δ : Nat → κ) (ph : Nat → Phase 
       = ε * gradEntry dt (dhdU i j) Vg el :=
   gradEntry_smul dt ε _ _ (fun x => by rw [U_finite_difference cplx Ω δ ph U i j hij hj ε x]; abel) Vg el
 
+/-- **The real (all-phases-zero) path does not depend on the phase tape at all**: whatever is differentiated through
+`RydbergHamiltonian.__mul__` on that path (the energy observables are) has no `φ`-derivative, although `∂H/∂φ_k` at
+`φ = 0` is `(Ω_k/2) σʸ ≠ 0` (`phi_derivative_rotation`). Finding F-treevec-2; see `zero_phase_energy_counterexample`. -/
+theorem real_path_ignores_phase [AddCommGroup β] [Module κ β] (Ω δ : Nat → κ) (ph ph' : Nat → Phase κ)
+    (U : Nat → Nat → κ) (v : Vec β n) :
+    hamMulWith false Ω δ ph U v = hamMulWith false Ω δ ph' U v := by
+  rw [hamMulWith_eq_sum, hamMulWith_eq_sum]; rfl
+
 /-- the assumption behind `EvolveStateVector.backward` (not proved): for an ideal propagator `expm` and the returned
 decomposition, the directional derivative of `⟨g| expm(A) ψ⟩` along `E` is the trace the code forms. -/
 def FrechetDoubleKrylovContract (_expm : (Vec κ n → Vec κ n) → Vec κ n → Vec κ n)
@@ -123,6 +133,19 @@ example : hamMulWith true (upd exΩ 1 (exΩ 1 + ⟨7 / 3, 0⟩)) exδ exPh exU e
 example : hamMulWith true exΩ exδ (upd exPh 0 (shiftPhase ⟨5 / 13, 0⟩ ⟨12 / 13, 0⟩ (exPh 0))) exU exV
     = hamMulWith true exΩ exδ exPh exU exV + (⟨12 / 13, 0⟩ : K) • dhdPhi (exΩ 0) ⟨true, ⟨-4 / 5, 0⟩, ⟨3 / 5, 0⟩⟩ 0 exV
       + ((⟨5 / 13, 0⟩ : K) - 1) • applyAt 0 (offLocal true (halfOmega exΩ) exPh 0) exV := by decide +kernel
+
+/-- **Counterexample to "energies are differentiable w.r.t. a zero phase through the real path"**: one atom, `Ω = 2`,
+`ψ = (1, i)/√2·√2`: the energy `⟨ψ|H(φ)ψ⟩` of the true Hamiltonian changes when the phase is rotated away from 0 by
+`(cos θ, sin θ) = (3/5, 4/5)` (from `0` to `8/5`), while the real path returns the same value for every phase tape. -/
+theorem zero_phase_energy_counterexample :
+    let Ω : Nat → K := fun _ => ⟨2, 0⟩
+    let z : Nat → K := fun _ => 0
+    let ψ : Vec K 1 := .node (.leaf ⟨1, 0⟩) (.leaf ⟨0, 1⟩)
+    let p0 : Nat → Phase K := fun _ => ⟨false, 1, 0⟩
+    let p1 : Nat → Phase K := fun _ => shiftPhase ⟨3 / 5, 0⟩ ⟨4 / 5, 0⟩ (p0 0)
+    Vec.vdot ψ (hamMulWith true Ω z p1 (fun _ _ => 0) ψ) ≠ Vec.vdot ψ (hamMulWith true Ω z p0 (fun _ _ => 0) ψ)
+      ∧ Vec.vdot ψ (hamMulWith false Ω z p1 (fun _ _ => 0) ψ) = Vec.vdot ψ (hamMulWith false Ω z p0 (fun _ _ => 0) ψ) := by
+  decide +kernel
 
 end examples
 end EmuVerif.Props.C30
